@@ -17,7 +17,7 @@ func init() {
 		Level: "exploration",
 		Rule: "one run = one generated application + input history served by twin A, and by twin B with refusal candidates (bytes failing the input pattern, newline-containing, longer than the limit) and Flush-without-Exec probes inserted at drawn positions, in long-lived and persisted operation on any backend; " +
 			"non-trivial = at least one inserted request was refused at a position >= 1 and at least 2 regular requests followed; distinct = distinct sequences of abstract session states with the insertion positions",
-		Runs:       map[string]int{"quick": 50000, "thorough": 1200000},
+		Runs:       map[string]int{"quick": 50000, "thorough": 2500000},
 		MaxSeconds: map[string]int{"quick": 40, "thorough": 900},
 		Run:        runC17,
 		Assumptions: []string{
